@@ -266,9 +266,24 @@ func runWRScenario(sc wrScenario) (a wrAudit) {
 	if sc.SyncExec == 1 {
 		o.Executor = func(fn func()) { fn() }
 	}
+	if sc.SmallBuf == 2 {
+		// "long pass": one maintenance pass may replay at most maxWriteBufferSize + 1 events; with the bound at 8 and a pass
+		// that is slowed down (the deletion handler dawdles) while producers keep writing, a pass meets more than that
+		oldMax := maxWriteBufferSize
+		maxWriteBufferSize = 8
+		defer func() { maxWriteBufferSize = oldMax }()
+		inner := o.OnDeletion
+		var nD atomic.Int64
+		o.OnDeletion = func(e DeletionEvent[int, int]) {
+			if n := nD.Add(1); n == 2 || n == 5 {
+				time.Sleep(8 * time.Millisecond)
+			}
+			inner(e)
+		}
+	}
 	c := Must(o)
 	defer c.StopAllGoroutines()
-	if sc.SmallBuf == 1 && c.cache.withMaintenance {
+	if sc.SmallBuf >= 1 && c.cache.withMaintenance {
 		c.cache.writeBuffer = queue.NewMPSC[task[int, int]](4, 8)
 		c.cache.evictionMutex.Lock()
 		go func() {
@@ -517,7 +532,7 @@ func runWRPost(sc wrScenario, c *Cache[int, int], a *wrAudit, mu *sync.Mutex, re
 			c.SetMaximum(1)
 		}
 	}
-	if sc.SmallBuf == 1 && sc.Size != "none" && sc.Seed%4 != 3 {
+	if sc.SmallBuf >= 1 && sc.Size != "none" && sc.Seed%4 != 3 {
 		// lower the maximum after the race: an entry the policy never heard of cannot be chosen as a victim
 		for i := 0; i < 200 && c.cache.drainStatus.Load() != idle; i++ {
 			time.Sleep(time.Millisecond)
